@@ -145,6 +145,7 @@ structure Pending where
   rvTest : Nat           -- resourceVersion of `fresh_body`
   view : List String     -- finalizers of `fresh_body`
   merge : Bool           -- a merge-patch request comes first
+  mergeChanges : Bool    -- … and it changes the object (a new version is stored)
   deriving DecidableEq, Repr
 
 structure State where
@@ -177,14 +178,25 @@ structure Env where
                          -- without finishing, or are purged now while they do not match
   deriving DecidableEq, Repr
 
+/-- What a watch event shows of the object: the version and everything the decision reads of the body. -/
+structure Snap where
+  rv : Nat
+  marked : Bool
+  fins : List String
+  matchDel : Bool
+  matchDmn : Bool
+  deriving DecidableEq, Repr
+
 inductive Label where
-  | decide (e : Env)
+  | decide (e : Env) (v : Snap)   -- a cycle on the event body `v` (possibly stale: older than the server's state)
   | mergePatch
   | jsonPatch (forced422 : Bool)
   | editFins (l : List String)
   | mark
   | toggleDel
   | toggleDmn
+  | write (matchDel matchDmn : Bool)   -- any other stored new version (label/spec/annotation edits by anybody, the
+                                       -- operator's touch, a daemon's patch): afterwards the handlers match as given
   | handlerFinishes
   | daemonExits (onItsOwn : Bool)
   | restart
@@ -195,31 +207,40 @@ or a matching daemon/timer that has neither exited nor been abandoned. -/
 def required (s : State) : Bool :=
   (s.matchDel && !s.delDone) || (s.matchDmn && s.dmnLive)
 
-/-- The inputs of the decision block as functions of the object the cycle sees and the memory. -/
-def inputs (own : String) (s : State) (e : Env) : In :=
+def snap (s : State) : Snap :=
+  { rv := s.rv, marked := s.marked, fins := s.fins, matchDel := s.matchDel, matchDmn := s.matchDmn }
+
+/-- The inputs of the decision block as functions of the event body the cycle was given (`v`) and the
+operator's memory at that moment (`s`: carried fns, daemons, recorded handler progress). -/
+def inputs (own : String) (v : Snap) (s : State) (e : Env) : In :=
   { spawning := true,
-    spawnReq := s.matchDmn && !s.dmnForever,
-    changing := s.matchDel || e.otherChanging,
-    changeReq := s.matchDel,
-    isBlocked := decide (own ∈ s.fins),
-    isOngoing := s.marked,
+    spawnReq := v.matchDmn && !s.dmnForever,
+    changing := v.matchDel || e.otherChanging,
+    changeReq := v.matchDel,
+    isBlocked := decide (own ∈ v.fins),
+    isOngoing := v.marked,
     deletedEvent := false,
     consistent := e.consistent && s.mem.isEmpty,        -- patch_initially_empty
-    spawnDelays := s.dmnLive && (s.marked || !s.matchDmn),  -- stop_daemons / match_daemons still wait
-    changeDelays := (s.matchDel && !(s.delDone && !e.delReset)) || e.otherDelays }
+    spawnDelays := s.dmnLive && (v.marked || !v.matchDmn),  -- stop_daemons / match_daemons still wait
+    changeDelays := (v.matchDel && !(s.delDone && !e.delReset)) || e.otherDelays }
 
-def stepDecide (own : String) (s : State) (e : Env) : Option State :=
-  if s.pending.isSome then none else
-  let d := decision (inputs own s e)
+/-- A cycle starts on an event body: never newer than the server's state, and equal to it if of the same
+version (every change of what `Snap` shows stores a new version). -/
+def stepDecide (own : String) (s : State) (e : Env) (v : Snap) : Option State :=
+  if s.pending.isSome then none
+  else if !(decide (v.rv ≤ s.rv)) || (v.rv == s.rv && v != snap s) then none else
+  let d := decision (inputs own v s e)
   some { s with
-    dmnLive := s.dmnLive || (!s.marked && s.matchDmn && !s.dmnForever),   -- spawn_daemons
+    dmnLive := s.dmnLive || (!v.marked && v.matchDmn && !s.dmnForever),   -- spawn_daemons
     delDone := if d.handlersRun then s.delDone && !e.delReset else s.delDone,
-    pending := some { fns := s.mem ++ d.fns, rvTest := s.rv, view := s.fins, merge := e.merge } }
+    pending := some { fns := s.mem ++ d.fns, rvTest := v.rv, view := v.fins, merge := e.merge,
+                      mergeChanges := e.mergeChanges } }
 
 def stepMerge (s : State) : Option State :=
   match s.pending with
   | some p => if p.merge then
-      some { s with pending := some { p with rvTest := s.rv, view := s.fins, merge := false } }
+      let rv' := if p.mergeChanges then s.rv + 1 else s.rv     -- the response carries the (new) current version
+      some { s with rv := rv', pending := some { p with rvTest := rv', view := s.fins, merge := false } }
     else none
   | none => none
 
@@ -247,15 +268,15 @@ def stepMark (s : State) : Option State :=
 def step (own : String) (s : State) (l : Label) : Option State :=
   if s.gone then none else
   match l with
-  | .decide e => stepDecide own s e
+  | .decide e v => stepDecide own s e v
   | .mergePatch => stepMerge s
   | .jsonPatch f => stepJson own s f
   | .editFins l => stepEditFins own s l
   | .mark => stepMark s
   | .toggleDel => some { s with matchDel := !s.matchDel, rv := s.rv + 1 }
   | .toggleDmn => some { s with matchDmn := !s.matchDmn, rv := s.rv + 1 }
-  | .handlerFinishes =>
-      if s.marked && decide (own ∈ s.fins) && s.matchDel then some { s with delDone := true } else none
+  | .write d m => some { s with matchDel := d, matchDmn := m, rv := s.rv + 1 }
+  | .handlerFinishes => some { s with delDone := true }
   | .daemonExits own' =>
       if s.dmnLive then some { s with dmnLive := false, dmnForever := s.dmnForever || own' } else none
   | .restart => some { s with mem := [], pending := none, dmnLive := false, dmnForever := false }
@@ -293,8 +314,8 @@ def quiet : Env :=
     delReset := false }
 
 /-- The labels of one processing cycle that nobody interferes with. -/
-def cycleLabels (e : Env) : List Label :=
-  [Label.decide e] ++ (if e.merge then [Label.mergePatch] else []) ++ [Label.jsonPatch false]
+def cycleLabels (s : State) (e : Env) : List Label :=
+  [Label.decide e (snap s)] ++ (if e.merge then [Label.mergePatch] else []) ++ [Label.jsonPatch false]
 
 /-- A marked object on which something still requires the finalizer. -/
 def episode (s : State) : Bool := s.marked && required s
@@ -307,31 +328,35 @@ inductive ReachGH (own : String) : State → Bool → Prop where
   | step {s l s' held} : ReachGH own s held → Guard s l → step own s l = some s' →
       ReachGH own s' (if episode s' then (if episode s then held else decide (own ∈ s'.fins)) else false)
 
-/-! ## Wake-ups: when is the next cycle of the object due?
+/-! ## Wake-ups: when is the next cycle of the object due, and on which event body?
 
-  The LTS above lets a cycle start at any moment. Whether one DOES start is the business of this layer,
-  which wraps a base state with what triggers the object's worker (`queueing.worker` takes one watch event
-  per cycle; `application.apply` ends a cycle that returned delays by sleeping and then touching the object):
-    `events`    — watch events of the object not yet taken by the worker. Every stored new version is one
-                  (foreign writes, the deletion mark, the operator's own accepted writes); a restarted
-                  operator gets one from the listing; a request that changes nothing brings none.
+  The LTS above lets a cycle start at any moment on any not-too-new body. Which one DOES start is the
+  business of this layer, which wraps a base state with what drives the object's worker (`queueing.worker`
+  takes one watch event per cycle, in order, no batching; `application.apply` ends a cycle that returned
+  delays by sleeping and then touching the object):
+    `queue`     — the watch events of the object not yet taken by the worker, oldest first, each with the
+                  body it shows (`Snap`). Every stored new version is one (foreign writes, the deletion mark,
+                  the operator's own accepted writes, its touch); a restarted operator gets exactly one, the
+                  current state, from the listing; a request that changes nothing brings none.
     `sleeping`  — the last cycle returned delays and its patch was empty OR CHANGED NOTHING (the returned
                   version is the version of the body the cycle worked on; repair 7224f57): the worker
                   sleeps in `application.apply` and will touch the object (label `touch` → one more event).
                   After a patch that changed the object — or whose outcome is unknown (HTTP 422/404: no
                   version came back) — the sleep is skipped ("the patch's event will wake us").
     `cyc…`      — what `apply` knows about the cycle in flight.
-  `decide e` takes one event; it may find the state inconsistent (`e.consistent = false`, the early
-  `return`) only while a further event is still queued: the worker waits for the version of its own last
-  patch only if that patch changed the object (repair 460c956), and that version then arrives as an event. -/
+  `decide e v` takes the HEAD of the queue as its body `v`; it may find the state inconsistent
+  (`e.consistent = false`, the early `return`) only while a further event is still queued: the worker waits
+  for the version of its own last patch only if that patch changed the object (repair 460c956), and that
+  version then arrives as an event. -/
 
 structure LState where
   base : State
-  events : Nat
+  queue : List Snap
   sleeping : Bool
   cycDelays : Bool      -- the cycle in flight returned non-empty delays
   cycMerge : Bool       -- its patch has dict content
-  cycChanges : Bool     -- … which changes the object
+  cycChanges : Bool     -- … whose response carried another version than the body the cycle works on
+  cycViewRv : Nat       -- the version of that body (`seen_version`)
   deriving DecidableEq, Repr
 
 inductive LLabel where
@@ -348,31 +373,42 @@ patch's response decides; without it a non-empty patch has fns only and no versi
 def changedUnwritten (cycMerge cycChanges : Bool) (fns : List Fn) : Bool :=
   if cycMerge then cycChanges else !fns.isEmpty
 
+/-- A stored new version is delivered to the worker as one more event. -/
+def enqueue (s : LState) (b : State) : List Snap :=
+  if b.rv != s.base.rv then s.queue ++ [snap b] else s.queue
+
 def lstep (own : String) (s : LState) : LLabel → Option LState
   | .touch =>
-      if s.sleeping && s.base.pending.isNone && !s.base.gone
-      then some { s with sleeping := false, events := s.events + 1 } else none
+      if s.sleeping && s.base.pending.isNone then
+        (step own s.base (.write s.base.matchDel s.base.matchDmn)).map fun b =>
+          { s with base := b, queue := s.queue ++ [snap b], sleeping := false }
+      else none
   | .base l =>
     match l with
-    | .decide e =>
-        if s.events = 0 then none
-        else if !e.consistent && s.events < 2 then none
-        else (step own s.base l).map fun b =>
-          { base := b, events := s.events - 1, sleeping := false,
-            cycDelays := (decision (inputs own s.base e)).delays, cycMerge := e.merge, cycChanges := e.mergeChanges }
+    | .decide e v =>
+        match s.queue with
+        | [] => none
+        | v' :: rest =>
+          if v' != v then none                               -- the worker takes the oldest event
+          else if !e.consistent && rest.isEmpty then none    -- inconsistent only while another one is queued
+          else (step own s.base l).map fun b =>
+            { base := b, queue := rest, sleeping := false,
+              cycDelays := (decision (inputs own v s.base e)).delays, cycMerge := e.merge, cycChanges := false,
+              cycViewRv := v.rv }
     | .mergePatch =>
-        (step own s.base l).map fun b => { s with base := b, events := s.events + (if s.cycChanges then 1 else 0) }
+        (step own s.base l).map fun b => { s with base := b, queue := enqueue s b, cycChanges := b.rv != s.cycViewRv }
     | .jsonPatch _ =>
         (step own s.base l).map fun b =>
-          if b.rv != s.base.rv then { s with base := b, events := s.events + 1 }     -- the accepted write is an event
+          if b.rv != s.base.rv then { s with base := b, queue := enqueue s b }     -- the accepted write is an event
           else { s with base := b,
                         sleeping := sleepsAfter s.cycDelays
                           (changedUnwritten s.cycMerge s.cycChanges (match s.base.pending with | some p => p.fns | none => [])) }
     | .restart =>
         (step own s.base l).map fun b =>
-          { base := b, events := 1, sleeping := false, cycDelays := false, cycMerge := false, cycChanges := false }
+          { base := b, queue := [snap b], sleeping := false, cycDelays := false, cycMerge := false, cycChanges := false,
+            cycViewRv := b.rv }
     | _ =>   -- foreign writes and completions: a new version is an event
-        (step own s.base l).map fun b => { s with base := b, events := s.events + (if b.rv != s.base.rv then 1 else 0) }
+        (step own s.base l).map fun b => { s with base := b, queue := enqueue s b }
 
 def lrun (own : String) (s : LState) : List LLabel → Option LState
   | [] => some s
@@ -380,7 +416,8 @@ def lrun (own : String) (s : LState) : List LLabel → Option LState
 
 /-- A starting operator finds the object in its listing. -/
 def LInit (s : LState) : Prop :=
-  Init s.base ∧ s.events = 1 ∧ s.sleeping = false ∧ s.cycDelays = false ∧ s.cycMerge = false ∧ s.cycChanges = false
+  Init s.base ∧ s.queue = [snap s.base] ∧ s.sleeping = false ∧ s.cycDelays = false ∧ s.cycMerge = false ∧
+  s.cycChanges = false
 
 /-- What the liveness theorems assume of the environment (everything else is free): no HTTP 422 is injected
 without a real concurrent write. (Kubernetes answers 422 to the `test` op only when the version has moved,
@@ -401,7 +438,7 @@ inductive LReachG (own : String) : LState → Prop where
 /-- The operator's own labels (nothing of the environment). -/
 def LLabel.isOperator : LLabel → Bool
   | .touch => true
-  | .base (.decide _) => true
+  | .base (.decide _ _) => true
   | .base .mergePatch => true
   | .base (.jsonPatch f) => !f
   | _ => false
